@@ -673,6 +673,35 @@ func shapeFacts(eng *tf.Engine, fn *ssa.Function) ([]lengthFact, []string) {
 		if cond.K != tf.KBin || (cond.Name != "!=" && cond.Name != "==") {
 			continue
 		}
+		// a test of an inlined helper's error: (ite(c ? error : nil) != nil) stands for c
+		if (cond.Args[1].K == tf.KNil && cond.Args[0].K == tf.KIte) || (cond.Args[0].K == tf.KNil && cond.Args[1].K == tf.KIte) {
+			ite := cond.Args[0]
+			if ite.K != tf.KIte {
+				ite = cond.Args[1]
+			}
+			inner := ite.Args[0]
+			thenNil, elseNil := ite.Args[1].K == tf.KNil, ite.Args[2].K == tf.KNil
+			if inner.K == tf.KBin && (inner.Name == "!=" || inner.Name == "==") && thenNil != elseNil {
+				name := inner.Name
+				if thenNil { // error when the inner condition is false
+					if name == "!=" {
+						name = "=="
+					} else {
+						name = "!="
+					}
+				}
+				if cond.Name == "==" { // testing err == nil
+					if name == "!=" {
+						name = "=="
+					} else {
+						name = "!="
+					}
+				}
+				c2 := *inner
+				c2.Name = name
+				cond = &c2
+			}
+		}
 		// the failing edge must return a non-nil error
 		failSucc := b.Succs[0]
 		if cond.Name == "==" {
@@ -767,7 +796,8 @@ func checkGuardCoversUseRule(p *core.Program, r *core.Report, ps *types.Named, r
 	if ps == nil {
 		return
 	}
-	eng := tf.NewEngine(core.InRepo, 0) // no inlining: the validator is analysed on its own
+	eng := tf.NewEngine(core.InRepo, 0) // the prover is analysed without inlining the validator
+	veng := tf.NewEngine(core.InRepo, 3) // the validator may use small in-repo helpers
 	for _, fn := range p.RepoFuncs() {
 		if fn.Signature.Recv() == nil || namedOf(fn.Signature.Recv().Type()) != ps || fn.Signature.Results().Len() != 2 || fn.Signature.Params().Len() != 1 {
 			continue
@@ -804,7 +834,7 @@ func checkGuardCoversUseRule(p *core.Program, r *core.Report, ps *types.Named, r
 			continue
 		}
 		r.AnalysedFn(core.FuncName(validator))
-		facts, notes := shapeFacts(eng, validator)
+		facts, notes := shapeFacts(veng, validator)
 		// bound arguments at the call
 		boundArgs := []*tf.Term{ev.Term(vcall.Common().Args[1]), ev.Term(vcall.Common().Args[2])}
 		G := map[string]*tf.Term{}
